@@ -936,6 +936,12 @@ func (p *Policy) validURL(rawurl string) (string, bool) {
 					-1,
 				)
 			}
+
+			// Whatever whitespace is left was not line folding of base64
+			// data, and no URL may contain it
+			if strings.ContainsAny(rawurl, " \t\n") {
+				return "", false
+			}
 		}
 
 		// URLs are valid if they parse
